@@ -23,7 +23,7 @@ if [ -z "$SKIP_SUITE" ]; then
 fi
 for c in $checks; do
   echo "== check $c quick" >> $log
-  ( cd /verif && VERIF_REPO=$d python3 vt.py $c --tier quick 2>&1 | grep -v conda | grep -v "^KNOWN" | grep "VIOLATION\|^  \|quick:\|ENGINE" | head -12 | cut -c1-400 ) >> $log
+  ( cd /verif && VERIF_REPO=$d python3 vt.py $c --tier quick 2>&1 | grep -v conda | grep -v "^KNOWN" | grep "VIOLATION\|^  \|quick:\|ENGINE" | head -60 | cut -c1-400 ) >> $log
 done
 echo "== done" >> $log
 rm -rf $d
